@@ -17,9 +17,21 @@ VARIANT_MODES = ['v_long', 'v_pad', 'v_mixlen', 'v_defindef', 'v_indefdef', 'v_n
                  'v_true7f', 'v_true80', 'v_trueff', 'v_perm', 'v_sorted', 'v_emitdef']
 
 
+_SPECS = {}
+
+
+def shared_spec(T):
+    """schema objects are long-lived and shared in real programs: one per type term and process"""
+    import json
+    key = json.dumps(T, sort_keys=True)
+    if key not in _SPECS:
+        _SPECS[key] = U.build_type(T)
+    return _SPECS[key]
+
+
 def build(case):
     try:
-        spec = U.build_type(case['T'])
+        spec = shared_spec(case['T'])
         return spec, U.build_value(case['T'], case['v'], spec), None
     except Exception as e:
         return None, None, '%s: %s' % (type(e).__name__, e)
@@ -443,10 +455,19 @@ def read_only_uses(T, obj):
 def plan_c04(case):
     T, v = case['T'], case['v']
     try:
-        spec = U.build_type(T)
+        spec = shared_spec(T)
     except Exception as e:
         return trace(case, [], '%s: %s' % (type(e).__name__, e))
     builders = [('direct', lambda: U.build_value(T, v, spec))]
+    if T['k'] in ('seqof', 'setof') and len(v['es']) > 1:
+        def descending():
+            o = spec.clone()
+            o.clear()
+            for i in reversed(range(len(v['es']))):
+                o.setComponentByPosition(i, U.build_value(T['of'], v['es'][i]))
+            return o
+        builders.append(('index-descending', descending))
+        builders.append(('index-descending-clone', lambda: descending().clone(cloneValueFlag=True)))
     if T['k'] in ('seq', 'set'):
         for how in ('reverse', 'byname', 'byname-reverse', 'explicit-default', 'skip-default'):
             builders.append((how, (lambda h: (lambda: build_variant(T, v, h, spec)))(how)))
@@ -651,7 +672,8 @@ PROPS = {
                                                    shapes=['scalar', 'any', 'seqof', 'choice', 'deep'])), sizes=False),
     'C15': dict(plan=plan_c15, clauses={'Accepted', 'Crash'},
                 cfg=lambda tier: cfg(tier, modes=['der']), sizes=False),
-    'C04': dict(plan=plan_c04, clauses={'EncodableDependsOnHistory', 'DerDependsOnHistory', 'CerDependsOnHistory', 'Disagree'},
+    'C04': dict(plan=plan_c04, clauses={'EncodableDependsOnHistory', 'DerDependsOnHistory', 'CerDependsOnHistory', 'Disagree',
+                                        'DerNotTheCanonicalBytes'},
                 cfg=lambda tier: cfg(tier, modes=['der', 'ber_indef', 'ber_def_c1', 'v_long', 'v_indefdef', 'v_perm', 'v_emitdef', 'v_true7f'],
                                      quick=dict(kinds=['bool', 'int', 'bits', 'octs', 'oid', 'real', 'utf8', 'enum', 'null'])), sizes=False),
     'C17': dict(plan=plan_c17, clauses={'EncRefused', 'Rejected', 'NotAValue', 'ValueDiffers', 'Crash', 'Disagree'},
